@@ -16,6 +16,12 @@ class Ctx:
         self.cg = CallGraph(self.fx)
         self.tables = tables or {}
         self._pg = {}
+        # named integer constants by short name (only names that are unique), for value-wise matching of atoms
+        global CONST_VALUES
+        vals = {}
+        for cp, cv in self.fx.consts.items():
+            vals.setdefault(cp.split("::")[-1], set()).add(cv)
+        CONST_VALUES = {k: next(iter(v)) for k, v in vals.items() if len(v) == 1}
 
     def pg(self, fn):
         g = self._pg.get(fn.path)
@@ -235,9 +241,23 @@ def wild(a):
     return _re.sub(r"(var|param):\w+", lambda m: m.group(0) if m.group(0) == "param:self" else m.group(1) + ":*", a)
 
 
+CONST_VALUES = {}
+
+
+def numeric(a):
+    """The atom with named integer constants replaced by their values (`const:MAX_NAME_LEN_BYTES` -> `const:64`)."""
+    return _re.sub(r"const:(?:\w+::)*([A-Za-z_]\w*)", lambda m: ("const:%d" % CONST_VALUES[m.group(1)]) if m.group(1) in CONST_VALUES else m.group(0), a)
+
+
 def atoms_match(rx, atoms):
-    """Does regex rx match one of the atoms, in its literal or its name-wildcarded spelling?"""
+    """Does regex rx match one of the atoms, in its literal or its name-wildcarded spelling - or, for a regex that
+    names a number, in the spelling where named constants are replaced by their values?"""
+    num = bool(_re.search(r"const:\\?d|const:\d", rx))
     for a in atoms:
         if _re.search(rx, a) or _re.search(rx, wild(a)):
             return True
+        if num and "const:" in a:
+            n = numeric(a)
+            if n != a and (_re.search(rx, n) or _re.search(rx, wild(n))):
+                return True
     return False
